@@ -15,7 +15,7 @@ CHECKS = {
     "C05": {
         "engine": "L",
         "technique": "bounded-exhaustive enumeration of scenes (compositions x flows x metastable layouts x providers x energies x directions x beam/plasma points), every BeamModel.emission call compared with the documented formula and with the logged coefficient arguments",
-        "text": "Every point of a declared lattice of beam/plasma scenes is executed on the real BeamCXLine/BeamEmissionLine and compared with a pure-python reference of the documented population-weighted mean / charged sum; the mock provider logs every coefficient evaluation so each argument (E_int, T, total ion density, Z_eff, |B|, request key) is checked separately. Exhaustive over the lattice, says nothing between lattice points.",
+        "text": "Every point of a declared lattice of beam/plasma scenes is executed on the real BeamCXLine/BeamEmissionLine and compared with a pure-python reference of the documented population-weighted mean / charged sum; the mock provider logs every coefficient evaluation so each argument (E_int, T, total ion density, Z_eff, |B|, request key) is checked separately. A history family evaluates, replaces a species through composition.add with no other setter in between, and evaluates again against a fresh model. Exhaustive over the lattice, says nothing between lattice points.",
         "note": "Beam density comes from a stub attenuator (real attenuators are C04); line shapes are trusted to conserve the radiance (C02); closed-form mock coefficients in mc/refs/c05_ref.py.",
     },
     "C07": {
@@ -75,7 +75,7 @@ CHECKS = {
     "C16": {
         "engine": "H+L",
         "technique": "explicit-state exploration of all setter sequences <= 3 (thorough 4) with read interleavings on Spectrometer / CzernyTurnerSpectrometer / Polychromator with live-vs-fresh differential oracle; exhaustive calibration lattice against exact rational integration of the piecewise-linear spectrum",
-        "text": "Every setter (valid, rejected and empty values) in every order up to the bound, reads optionally before each op and twice at the end, compared exactly with a freshly constructed instrument plus independent range/bin-width/pixel oracles; calibrate() on all layout singles/pairs/triples x spectra against fractions.Fraction integrals.",
+        "text": "Every setter (valid, rejected and empty values) in every order up to the bound, reads optionally before each op and twice at the end, compared exactly with a freshly constructed instrument plus independent range/bin-width/pixel oracles; calibrate() on all layout singles/pairs/triples x spectra against fractions.Fraction integrals. Filter sets include separated, overlapping, repeated and nested filters (a broad band containing the line filter with the outermost centre).",
         "note": "CzernyTurner dispersion formula itself is not judged (consistency only); in-place mutation of returned containers is not a setter; calibration tolerance 1e-12 + 4 ulp(max_wavelength)/delta.",
     },
     "C20": {
@@ -87,25 +87,25 @@ CHECKS = {
     "C06": {
         "engine": "H",
         "technique": "explicit-state exploration of all add/update/install histories up to length 2 over a 195-operation alphabet (all 38 k pairs) plus length 3 inside collision groups (thorough: full-group triples, length 4 per family) on a fresh scratch repository, reading back every key of every family after every operation against a dict model",
-        "text": "Each history runs on a fresh repository directory with a scratch $HOME and cwd; after every operation every key of all 14 families is read through its get_* function: written keys bit-for-bit (dtype, shape, bytes), never-written keys RuntimeError, other keys unchanged, all spellings of one transition identical, caller payload unchanged, nothing created outside the repository path; rejected calls leave other keys untouched. A mismatch is attributed to the operation just executed and the model adopts the observed content so the rest of the history is still explored.",
+        "text": "Each history runs on a fresh repository directory with a scratch $HOME and cwd; after every operation every key of all 14 families is read through its get_* function: written keys bit-for-bit (dtype, shape, bytes), never-written keys RuntimeError, other keys unchanged, all spellings of one transition identical, caller payload unchanged, nothing created outside the repository path; rejected calls leave other keys untouched. A mismatch is attributed to the operation just executed and the model adopts the observed content so the rest of the history is still explored. Multi-group update operations are also repeated with one group unchanged and another new or corrected (a writer that shortcuts on unchanged content must still write the rest).",
         "note": "install_* values compared at rel 1e-12 with float(text) x unit conversion (parser fidelity is C08); an invalid call that is accepted is counted, not a violation; os.walk subset oracle replaced by stray-file search in $HOME, cwd and next to the repository.",
     },
     "C08": {
         "engine": "L",
         "technique": "bounded-exhaustive generation of ADF11/12/15/21/22 files by independent writers over shape x block x layout x trailer x header-style lattices, parse + install + read-back compared with float(text) of every number written; failing files delta-minimised",
-        "text": "Writers follow the published record layouts (DESIGN Appendix A), keep float(text) of every printed number as ground truth and were calibrated on the canonical shapes. 31.8 k files (thorough 399 k) over grid sizes around the values-per-line boundaries, block configurations, resolved/unresolved, three trailer forms, six ADF15 header styles, EXCIT/RECOM/CHEXC, D/E exponents; each is parsed and installed through every front-end and read back; wrong element and absent block must be rejected with the repository left empty.",
+        "text": "Writers follow the published record layouts (DESIGN Appendix A), keep float(text) of every printed number as ground truth and were calibrated on the canonical shapes. 31.8 k files (thorough 399 k) over grid sizes around the values-per-line boundaries, block configurations, resolved/unresolved, three trailer forms, six ADF15 header styles, EXCIT/RECOM/CHEXC, D/E exponents; each is parsed and installed through every front-end and read back; wrong element and absent block must be rejected with the repository left empty. The files of one case are successive editions (different numbers) written to ONE path, so anything a parser or installer keeps of an earlier file at that path shows as numbers that are not on disk; minimisation trials run at never-used paths, which separates 'this file is misread' from 'misread after another edition'.",
         "note": "Resolved ADF11 with several (IPRT, IGRD) blocks per Z1 only requires one of the file's blocks; ADF12 only zero-filled unused slots; wrong-element rejection for ADF11 only.",
     },
     "C14": {
         "engine": "H",
         "technique": "explicit-state exploration of all evaluation sequences <= 3 (thorough 4) over a role alphabet of points and all injective visit orders over one-point-per-cell, each step compared with a fresh cache evaluated at that point only; geometry lattice for node values, multilinear exactness, h^2 bound, outside behaviour and bounds invariance",
-        "text": "Caching1D/2D/3D with recording wrapped functions: every history value must equal the value from a fresh cache (they are bit-identical on the repaired tree), nodes are read off the call log, node values / multilinear reproduction / curvature bound are checked on a lattice of 120+9+4 geometries incl. areas far from the origin, with and without function boundaries and no_boundary_error.",
+        "text": "Caching1D/2D/3D with recording wrapped functions: every history value must equal the value from a fresh cache (they are bit-identical on the repaired tree), nodes are read off the call log, node values / multilinear reproduction / curvature bound are checked on a lattice of 120+9+4 geometries incl. areas far from the origin, with and without function boundaries and no_boundary_error. An abort family explores every history in which the wrapped function raises (once, on each call an evaluation can reach; or permanently beyond the last inner node): the aborted evaluation must leave no trace in later values.",
         "note": "The call log is not an oracle; points within 1.5e-7 outside an edge may evaluate or raise but history-independently; node tolerance grows with prod N^3 in 3-D (documented algorithm).",
     },
     "C10": {
         "engine": "L",
         "technique": "bounded-exhaustive enumeration of grids (1..3 cells per axis, unequal sizes, inner radius, periods) x all masks (<= 8 cells) x all set partitions into <= 3 sources with holes (<= 6 cells) x steps x transforms x a ray family (lattice origins x 26 lattice directions + tangential / edge / corner / in-plane rays), compared with an exact chord-length reference",
-        "text": "The reference (mc/refs/chords.py, no cherab/raysect import) clips the ray against every cell (slab clipping for boxes; ray-cylinder / plane / half-plane events for (R,phi,Z) grids) with lo/hi bounds from cells shrunk/grown by 5e-9 m, and is cross-checked against a closed-form annulus chord in every cylinder case. Oracles: entries sum to the chord, per-cell entry within two integration steps, masked / -1 cells exactly zero and bins = max+1, merged-map entry = sum of its cells' identity-map entries (1e-12), periodic images give the same vector, no exception for rays inside the primitive; pipelines 0D/2D reproduce the direct trace.",
+        "text": "The reference (mc/refs/chords.py, no cherab/raysect import) clips the ray against every cell (slab clipping for boxes; ray-cylinder / plane / half-plane events for (R,phi,Z) grids) with lo/hi bounds from cells shrunk/grown by 5e-9 m, and is cross-checked against a closed-form annulus chord in every cylinder case. Oracles: entries sum to the chord, per-cell entry within two integration steps, masked / -1 cells exactly zero and bins = max+1, merged-map entry = sum of its cells' identity-map entries (1e-12), periodic images give the same vector, no exception for rays inside the primitive; pipelines 0D/2D reproduce the direct trace, also when one pipeline object serves several observations; a period stated as a rounded decimal (51.4286 = 360/7) is part of the grid alphabet.",
         "note": "raysect displaces each pass start by EPSILON=1e-9 m (sum tolerance 4e-9 + 1e-12 scale); passes shorter than 0.1 step may be skipped by the documented algorithm; Ray(extinction_prob=0) because Russian roulette is random; the literal two-step bound is exceeded for cells crossed in k>2 disjoint intervals on periodic grids (listed known finding, bound k steps enforced there).",
     },
     "C09": {
